@@ -381,6 +381,7 @@ class PitRun:
                                                   if k in ('can_be_prefix', 'must_be_fresh', 'nonce', 'lifetime')})
                         if 'lifetime' not in kw:
                             ip.lifetime = None
+                            kw['lifetime'] = None     # what the wire must show: no InterestLifetime element
                     raw, fname = enc.make_interest(name, ip, kw.get('app_param'), signer=kw.get('signer'), need_final_name=True)
                     if not self.face.running:
                         raise ndn_types.NetworkError('cannot send packet before connected')
